@@ -146,7 +146,15 @@ def main():
     except Exception as e:
         print('replay set-up error:', type(e).__name__, e)
         sys.exit(4)
-    old_args = copy.deepcopy(args)
+    # ghost parameters of the contract (not in the real signature) are kept for the clause but not passed
+    import inspect
+    try:
+        sig_names = set(inspect.signature(fn).parameters)
+    except (TypeError, ValueError):
+        sig_names = set(args)
+    ghost = {k: v for k, v in args.items() if k not in sig_names and k != 'self'}
+    args = {k: v for k, v in args.items() if k in sig_names or k == 'self'}
+    old_args = copy.deepcopy({**args, **ghost})
     print('calling', d['target'], 'with', {k: repr(v)[:120] for k, v in args.items()})
 
     def on_alarm(*_):
@@ -190,6 +198,7 @@ def main():
         sys.exit(1 if not isinstance(exc, TimeoutError) else 1)
     print('result =', repr(result)[:300])
     env = spec_env()
+    env.update(ghost)
     env.update(args)
     env['result'] = result
     old_env = spec_env()
